@@ -1,6 +1,7 @@
-(* C07 - the stop callback fires exactly once per established session, never otherwise. *)
+(* C07 - the stop callback fires exactly once per established session, never otherwise, and its argument is true iff a graceful
+   disconnect had been initiated before the connection closed. *)
 From Coq Require Import NArith ZArith List Bool.
-From Verif Require Import Model.Conn Proofs.ConnCore Proofs.ConnRun Proofs.ConnQuiet.
+From Verif Require Import Model.Conn Proofs.ConnCore Proofs.ConnRun Proofs.ConnQuiet Proofs.ConnReason Proofs.ConnReasonRun.
 Import ListNotations.
 
 (* stop_calls is the history of on_stop invocations (appended in _cleanup together with the OStop observation).
@@ -37,3 +38,63 @@ Example C07_force_write_fails : stops (connect ++ [LWriteFails true; LForce]) = 
 Proof. vm_compute. reflexivity. Qed.
 Example C07_never_connected : stops [LStart; LResolveDone None 1; LWake TStart; LForce; LIntr true; LWake TStart] = Some [].
 Proof. vm_compute. reflexivity. Qed.
+
+(* ---------------------------------------------------------------- the argument of the call *)
+(* The labels that initiate a graceful disconnect (Proofs/ConnReasonRun.v):
+     initiates l  :=  l = LForce  \/  l = LDisconnect  \/  l = LData items with a DisconnectRequest frame among items.
+   ONLY IF: in every run from the initial state, a stop call with argument true is preceded (or made) by such a label -
+   every prefix of a run is a run, so the label lies at or before the step that made the call. *)
+Theorem C07_true_only_if_initiated : forall n e ka scr ls c os,
+  run (init n e ka scr) ls = Some (c, os) -> In true (stop_calls c) -> exists l, In l ls /\ initiates l.
+Proof. exact true_only_if_initiated. Qed.
+
+Theorem C07_true_only_if_initiated_before : forall n e ka scr l1 l2 c1 os1 c os,
+  run (init n e ka scr) (l1 ++ l2) = Some (c, os) -> run (init n e ka scr) l1 = Some (c1, os1) ->
+  In true (stop_calls c1) -> exists l, In l l1 /\ initiates l.
+Proof. exact true_only_if_initiated_before. Qed.
+
+(* IF: the expected-disconnect flag is never lowered, and from any reachable state in which it is up every later stop call
+   has argument true - whatever close cause follows, in whatever order *)
+Theorem C07_flag_up_then_true : forall c0 ls c os,
+  reachable c0 -> expected_disconnect c0 = true -> run c0 ls = Some (c, os) ->
+  expected_disconnect c = true /\ exists suf, stop_calls c = stop_calls c0 ++ suf /\ Forall (eq true) suf.
+Proof. intros c0 ls c os Hr. apply flag_up_then_true. apply RI_reachable. exact Hr. Qed.
+
+(* ... so a call with argument false means the flag was down in every earlier state of the run *)
+Theorem C07_false_means_flag_never_up : forall n e ka scr l1 l2 c1 os1 c os,
+  run (init n e ka scr) (l1 ++ l2) = Some (c, os) -> run (init n e ka scr) l1 = Some (c1, os1) ->
+  stop_calls c1 = [] -> In false (stop_calls c) -> expected_disconnect c1 = false.
+Proof. exact false_means_flag_never_up. Qed.
+
+(* what raises the flag (Sets c c' = the flag is up in c', and every stop call made by the step has argument true):
+   force_disconnect(), in any state; *)
+Theorem C07_force_initiates : forall c c' o, step c LForce = Some (c', o) -> Sets c c'.
+Proof. exact force_initiates. Qed.
+(* disconnect(), as soon as it is past waiting for a pending connect; *)
+Theorem C07_disconnect_initiates : forall c c' o,
+  finish_fut c <> FPending -> step c LDisconnect = Some (c', o) -> Sets c c'.
+Proof. exact disconnect_initiates. Qed.
+Theorem C07_disconnect_wait_over_initiates : forall c c' o,
+  pc (t_disc c) = PD_Wait -> must_cancel (t_disc c) = false -> step c (LWake TDisc) = Some (c', o) -> Sets c c'.
+Proof. exact disconnect_wait_over_initiates. Qed.
+(* a valid DisconnectRequest frame from the device, in every reachable state whose handshake is complete - the disconnect
+   handler is registered there and no handler dispatched before it can abort the dispatch *)
+Theorem C07_disconnect_request_initiates : forall c m rest c' o,
+  reachable c -> handshake_complete c = true ->
+  m_ty m = T_DISC_REQ -> registered (m_ty m) = true -> m_valid m = true ->
+  step c (LData (DFrame m :: rest)) = Some (c', o) -> Sets c c'.
+Proof. intros c m rest c' o Hr. apply disconnect_request_initiates. apply RI_reachable. exact Hr. Qed.
+
+Theorem C07_disconnect_handler_registered : forall c,
+  reachable c -> handshake_complete c = true -> In (T_DISC_REQ, HDisc) (handlers c).
+Proof. exact disconnect_handler_registered. Qed.
+
+(* non-vacuity: the hypotheses of C07_disconnect_request_initiates hold of the connected state reached by `connect` *)
+Example C07_disconnect_request_applies :
+  match run (init false false 20480 []) connect with
+  | Some (c, _) => handshake_complete c = true /\ m_ty discreq = T_DISC_REQ /\ registered (m_ty discreq) = true /\
+                   m_valid discreq = true /\ step c (LData [DFrame discreq]) <> None
+  | None => False
+  end.
+Proof. vm_compute. repeat split; discriminate. Qed.
+(* and a call with false exists: see C07_reset above (no initiating label in that run before the reset) *)
